@@ -2,6 +2,7 @@ package verif
 
 import (
 	"fmt"
+	"strings"
 	"time"
 )
 
@@ -186,5 +187,67 @@ func scenarioC05(r *Run) {
 		} else {
 			r.Count("rejected_as_expected")
 		}
+	}
+	if r.Failed() || cell.ServerCert == "expiring-soon" || cell.ServerCert == "not-yet-valid" || CarrierIsDNS(cfg.Carrier) || !c.Chance(1, 2, "second-attempt") {
+		return
+	}
+	// ---- the same client again: an admitted session is lost first (carrier reset; server restart on the
+	// datagram carriers); a rejected client simply gets the next local connection. Authentication is
+	// demanded of every session, not only of the first one a client process makes.
+	if established {
+		lc.App.Do(Op{Kind: "close"})
+		r.RunFor(3 * time.Second)
+		cut := 0
+		for _, cn := range r.Net.Conns() {
+			if cn.Tag == "dial" && strings.HasSuffix(cn.Key, fmt.Sprintf(":%d", CarrierPort(cfg.Carrier))) {
+				r.Net.Reset(cn)
+				cut++
+			}
+		}
+		if cut > 0 {
+			r.Count("fault_carrier_reset")
+			r.RunFor(time.Duration(1+c.Pick(10, "wait-s")) * time.Second)
+		} else {
+			if err := w.RestartServer(); err != nil {
+				r.Fail("harness", "server restart: %v", err)
+				return
+			}
+			r.Count("fault_server_restart")
+			r.RunFor(95 * time.Second)
+		}
+	}
+	before := len(w.Targets[0].Peers())
+	lc2 := &LConn{I: 1, TIdx: 0, Lsn: lsn, Mode: "active"}
+	lc2.PlanA = Partition(c, 64, "app-part")
+	lc2.PlanT = Partition(c, 64, "tgt-part")
+	cs2 := NewConnSet(r, w, "app", []*LConn{lc2})
+	extra2 := func() []Ev { return append(cs2.OpenEv(nil), cs2.PeerEvents()...) }
+	goal2 := func() bool {
+		cs2.Assign()
+		if !cs2.AllOpened() {
+			return false
+		}
+		if cs2.Complete(lc2, false) {
+			return true
+		}
+		_, _, eof, rerr, _, _ := lc2.App.Snapshot()
+		return eof || rerr != nil
+	}
+	out = r.Drive(pol, goal2, extra2, 90*time.Second, limit)
+	if out == Aborted {
+		return
+	}
+	cs2.Assign()
+	established2 := cs2.Complete(lc2, false)
+	sig += " second-attempt"
+	switch {
+	case expect && !established2:
+		r.FailSig("rejected-legitimate-peer", sig, "%s: cell %s (%s): the first session was established and lost; the next one must be established too but the application was not served: %v", out, cell, why, cs2.Describe())
+	case !expect && (established2 || len(w.Targets[0].Peers()) > before):
+		r.FailSig("admitted-unauthenticated-peer", sig, "cell %s must be rejected (%s) on every attempt, but on the second one the target accepted %d connection(s)", cell, why, len(w.Targets[0].Peers())-before)
+	case expect:
+		r.Count("admitted_again_after_session_loss")
+	default:
+		r.Count("rejected_again_on_second_attempt")
 	}
 }
